@@ -1322,8 +1322,41 @@ func (s *sim) stuckHigherTermNonCampaigner() (uint64, bool) {
 		if r.raft().selfRemoved() || r.kind != kVoter {
 			return r.id, true
 		}
+		// it may campaign, but in its own (stale) membership view it cannot collect a
+		// quorum from the replicas that are running (e.g. it counts a replica that was
+		// removed and stopped in the meantime): its term only grows, the leader never
+		// hears about it (vote requests go to the members it knows), same root cause
+		if !s.electable(r) {
+			return r.id, true
+		}
 	}
 	return 0, false
+}
+
+// electable: could c win an election in the current state, judged by its own
+// membership view (every running replica it counts grants iff c's log is up to date)?
+func (s *sim) electable(c *simReplica) bool {
+	if c.kind != kVoter {
+		return false
+	}
+	if _, ok := c.mem.Addresses[c.id]; !ok {
+		return false
+	}
+	cl := c.raft().log
+	ct, _ := cl.lastTerm()
+	voting := c.mem.voting()
+	grants := 1
+	for _, r := range s.runningReps() {
+		if r.id == c.id || !voting[r.id] {
+			continue
+		}
+		rl := r.raft().log
+		rt, _ := rl.lastTerm()
+		if ct > rt || (ct == rt && cl.lastIndex() >= rl.lastIndex()) {
+			grants++
+		}
+	}
+	return grants >= len(voting)/2+1
 }
 
 // stuckBehindWitness recognises the stuck shape of known finding F4: a running
